@@ -61,7 +61,7 @@ impl<State: PyStateConvert + state::State> GoalSampleableRegion<State> for PyGoa
                 .and_then(|res| res.extract::<State::Wrapper>(py))
                 .map(State::from_py_wrapper)
                 .map_err(|e| {
-                    e.print(py);
+                    e.display(py);
                     StateSamplingError::GoalRegionUnsatisfiable
                 })
         })
